@@ -612,6 +612,73 @@ func runC02(p *engine.Prog, r *engine.Report) {
 		}
 	}
 
+	// the same merge through a map: labels.FromMap(m) with m filled from the group's labels and then from the target's own
+	// (the later write wins), or group labels written only where the target has none
+	for _, fn := range p.Funcs {
+		if !engine.InPkg(fn, pkgDisc) {
+			continue
+		}
+		fi := p.Info(fn)
+		for _, in := range allInstrs(fn) {
+			fm, ok := in.(*ssa.Call)
+			if !ok || !engine.CalleeIs(fm.Common(), "github.com/prometheus/prometheus/model/labels", "", "FromMap") {
+				continue
+			}
+			mm, ok := fm.Call.Args[0].(*ssa.MakeMap)
+			if !ok {
+				continue
+			}
+			type contrib struct {
+				mu  *ssa.MapUpdate
+				rng *ssa.Range
+			}
+			var own, group []contrib
+			for _, rr := range *mm.Referrers() {
+				mu, ok := rr.(*ssa.MapUpdate)
+				if !ok || mu.Map != ssa.Value(mm) {
+					continue
+				}
+				if ex, ok := unwrapCT(mu.Key).(*ssa.Extract); ok {
+					if nx, ok := ex.Tuple.(*ssa.Next); ok {
+						if rg, ok := nx.Iter.(*ssa.Range); ok {
+							if strings.Contains(fi.T(rg.X).S, "[") {
+								own = append(own, contrib{mu, rg})
+							} else {
+								group = append(group, contrib{mu, rg})
+							}
+						}
+					}
+				}
+			}
+			if len(own) == 0 || len(group) == 0 {
+				continue
+			}
+			var probs []string
+			for _, o := range own {
+				if lp := loopOf(fi, o.mu.Block()); lp != nil {
+					for _, pr := range lp.header.Preds {
+						if fi.IsBackEdge(pr, lp.header) && !o.mu.Block().Dominates(pr) {
+							probs = append(probs, "a per-target label can be left out")
+						}
+					}
+				}
+			}
+			for _, g := range group {
+				guarded, _ := fi.Implies(g.mu.Block(), engine.Not(engine.A("has("+fi.T(own[0].rng.X).S+"[rk:"+g.rng.Name()+"])")))
+				before := true
+				for _, o := range own {
+					if reachesForward(fi, o.mu.Block(), g.mu.Block()) {
+						before = false
+					}
+				}
+				if !guarded && !before {
+					probs = append(probs, "a group label ("+short(fi.T(g.rng.X).S)+") can overwrite the target's own label: it is written after the target's labels and without 'the target does not define it'")
+				}
+			}
+			r.Check(len(probs) == 0, "R2.5-label-precedence", "label merge in "+engine.FuncName(fn), "labels.FromMap at "+p.Rel(fm.Pos()), "all per-target labels; group labels only where the target does not define the label itself", strings.Join(probs, "; "))
+		}
+	}
+
 	// discovery side prefixing
 	okPre := false
 	var whyPre string
@@ -800,4 +867,25 @@ func ssautilAllList(p *engine.Prog) []*ssa.Function {
 		}
 	}
 	return out
+}
+
+// reachesForward: to is reachable from from without taking a back edge (within one iteration of every enclosing loop).
+func reachesForward(fi *engine.FuncInfo, from, to *ssa.BasicBlock) bool {
+	seen := map[*ssa.BasicBlock]bool{from: true}
+	work := []*ssa.BasicBlock{from}
+	for len(work) > 0 {
+		b := work[len(work)-1]
+		work = work[:len(work)-1]
+		for _, sc := range b.Succs {
+			if fi.IsBackEdge(b, sc) || seen[sc] {
+				continue
+			}
+			if sc == to {
+				return true
+			}
+			seen[sc] = true
+			work = append(work, sc)
+		}
+	}
+	return false
 }
